@@ -377,6 +377,8 @@ def gen_ops(rng, has_rsa, n):
             ops.append(("session", rng.choice(["fixed", "fixed", "varying"])))
         else:
             ops.append(("mutate", rng.choice(VIEWS + ["map:name:pretty", "map:const:pretty", "map:enum:pretty"]), rng.choice(["setitem", "delitem", "update", "clear", "setdefault", "pop", "value_iadd", "value_append", "value_reverse", "value_clear", "value_setitem", "value_bytes", "value_heap", "value_reinit", "value_fill_empty", "value_fill_empty"])))
+    # every history ends with a caller that fills the empty lists it was handed (both pretty views), followed by one more read
+    ops += [("mutate", "settings", "value_fill_empty"), ("view", "settings_by_index"), ("mutate", "settings_by_index", "value_fill_empty"), ("profile",)]
     return ops
 
 
